@@ -312,6 +312,21 @@ func (e *env) catalogue() []kase {
 		kase{name: "valid:signers-plus-attributes-at-the-limit:2+14", tx: e.build(two, script(3), conflicts(transaction.MaxAttributes-2), nil), valid: true},
 		kase{name: "invalid:signers-plus-attributes-above-the-limit:2+15", tx: e.build(two, script(3), conflicts(transaction.MaxAttributes-1), nil)},
 	)
+	// the same hash named twice by Conflicts attributes, the repeat at various positions
+	cf := func(b ...byte) []transaction.Attribute {
+		var as []transaction.Attribute
+		for _, x := range b {
+			as = append(as, transaction.Attribute{Type: transaction.ConflictsT, Value: &transaction.Conflicts{Hash: util.Uint256{0x5b, byte(h), x}}})
+		}
+		return as
+	}
+	ks = append(ks,
+		kase{name: "invalid:duplicate-conflicts:first-two", tx: e.build(one, script(3), cf(1, 1), nil)},
+		kase{name: "invalid:duplicate-conflicts:second-and-third", tx: e.build(one, script(3), cf(1, 2, 2), nil)},
+		kase{name: "invalid:duplicate-conflicts:first-and-last", tx: e.build(one, script(3), cf(1, 2, 3, 1), nil)},
+		kase{name: "invalid:duplicate-conflicts:second-and-last", tx: e.build(one, script(3), cf(1, 2, 3, 4, 2), nil)},
+		kase{name: "valid:distinct-conflicts", tx: e.build(one, script(3), cf(1, 2, 3), nil), valid: true},
+	)
 	if len(sg) > 1 {
 		tx := e.build(sg, scr(), nil, nil)
 		tx.Scripts[0], tx.Scripts[1] = tx.Scripts[1], tx.Scripts[0]
